@@ -1,7 +1,135 @@
 import Driver.Util
-/- Sub-protocol `C09`: not built yet. -/
+import ZxVerif.Spec.Video
+/-
+Sub-protocol `C09`: the border model against the beam-position spec.
+  new <m 0|1>
+  wait <n> | setclk <t>                  -> <frameClocks> <passedFrames>
+  out <port> <val>                       -> <frameClocks> <passedFrames> <clock at which the ULA latched it | ->
+  snap <colour>                          snapshot border: set_border_color(0, c)
+  frame                                  -> <fnv of model border buffer> <spec verdict on it> <model reported colour> <spec reported colour | ->
+  adj <runs>                             spec verdict on a buffer given as run-length list  n:code,n:code,...
+  bpx <q>                                -> model border pixel at linear index q
+  beam <t>                               -> <model line> <model pixel> <model frame_end> <spec position | ->
+Spec verdicts refer to the last *completed* frame: ok | unspec (frame saw a snapshot load) |
+bad <q> <shown> <exact colour or ->.
+The driver keeps, per frame, the colour in force at its start and the (latch clock, colour) list.
+-/
 namespace Driver.C09
+open ZxVerif.Video
 
-def proto : Driver.Proto := { σ := Unit, init := (), handle := fun s _ => (s, "unimplemented") }
+structure FrameRec where
+  init : Option (BitVec 3) := none
+  ws : List (Nat × BitVec 3) := []     -- time order
+  unspec : Bool := false
+
+structure St where
+  c : Ctl := Ctl.new .k48
+  cur : List (Nat × BitVec 3) := []    -- reversed
+  curInit : Option (BitVec 3) := none
+  curUnspec : Bool := false
+  last : FrameRec := {}
+  reported : Option (BitVec 3) := none
+
+def fnvStep (h : UInt64) (b : BitVec 8) : UInt64 := (h ^^^ b.toNat.toUInt64) * 0x100000001b3
+def fnvArray (a : Array Px) : UInt64 := a.foldl fnvStep 0xcbf29ce484222325
+def hex64 (h : UInt64) : String := toHex 16 h.toNat
+
+def status (c : Ctl) : String := s!"{toHex 5 c.frameClocks} {toHex 4 c.passedFrames}"
+
+/-- a frame boundary was crossed: the record of the frame in progress becomes `last` -/
+def rotate (s : St) : St :=
+  let init' := match s.cur with
+    | (_, col) :: _ => some col
+    | [] => s.curInit
+  { s with last := { init := s.curInit, ws := s.cur.reverse, unspec := s.curUnspec },
+           cur := [], curInit := init', curUnspec := false }
+
+def rotateIf (s : St) (before after : Nat) : St := if after > before then rotate s else s
+
+/-- the port reaches the ULA branch of `write_io` -/
+def ulaRouted (port : BitVec 16) : Bool :=
+  !(port &&& 0xC002 == 0xC000) && !(port &&& 0xC002 == 0x8000) && (port &&& 1 == 0)
+
+/-- first pixel the buffer gets wrong w.r.t. the spec of frame `fr` -/
+def specCheck (m : Machine) (fr : FrameRec) (buf : Array Px) : String :=
+  if fr.unspec then "unspec" else
+  let pws := Spec.positions m fr.ws
+  let bad := Nat.fold (320 * 240) (fun q _ (acc : Option (Nat × Px × Option (BitVec 3))) =>
+    match acc with
+    | some _ => acc
+    | none =>
+      let shown := buf.getD q 0xEE
+      let exact := Spec.colourAtPos fr.init pws q
+      let fast := match exact with
+        | some c => shown == pxCode c false
+        | none => shown &&& 0xF8 == 0
+      if fast then none
+      else if shown &&& 0xF8 == 0 && Spec.allowedAtPos fr.init pws q (shown.setWidth 3) then none
+      else some (q, shown, exact)) none
+  match bad with
+  | none => "ok"
+  | some (q, shown, exact) =>
+    let e := match exact with | some c => toHex 1 c.toNat | none => "-"
+    s!"bad {toHex 5 q} {hex8 shown} {e}"
+
+def runs? (s : String) : Option (Array Px) :=
+  (s.splitOn ",").foldlM (fun (acc : Array Px) r =>
+    match r.splitOn ":" with
+    | [n, c] => do
+      let n ← hexNat? n
+      let c ← hexNat? c
+      some (acc ++ Array.replicate n (BitVec.ofNat 8 c))
+    | _ => none) #[]
+
+def col1 : Option (BitVec 3) → String
+  | some c => toHex 1 c.toNat
+  | none => "-"
+
+def handle (s : St) : List String → St × String
+  | ["new", m] =>
+    let c := Ctl.new (if m = "1" then .k128 else .k48)
+    ({ c := c }, status c)
+  | ["wait", n] =>
+    let c := s.c.waitInternal (hexNatD n)
+    (rotateIf { s with c := c } s.c.passedFrames c.passedFrames, status c)
+  | ["setclk", t] =>
+    let c := { s.c with frameClocks := hexNatD t }
+    ({ s with c := c }, status c)
+  | ["out", p, v] =>
+    let port := bv16 p
+    let data := bv8 v
+    let c1 := s.c.ioContentionFirst port
+    let s1 := rotateIf s s.c.passedFrames c1.passedFrames
+    let col : BitVec 3 := (data &&& 0x07).setWidth 3
+    let (s2, latch) :=
+      if ulaRouted port then
+        ({ s1 with cur := (c1.frameClocks, col) :: s1.cur, reported := some col }, toHex 5 c1.frameClocks)
+      else (s1, "-")
+    let c2 := s.c.writeIo port data
+    let s3 := rotateIf { s2 with c := c2 } c1.passedFrames c2.passedFrames
+    (s3, s!"{status c2} {latch}")
+  | ["snap", v] =>
+    let col : BitVec 3 := BitVec.ofNat 3 (hexNatD v)
+    let c := s.c.setBorderColor 0 col
+    -- the snapshot border counts as the colour in force from now on; this frame is not adjudicated
+    ({ s with c := c, cur := (0, col) :: s.cur, curUnspec := true, reported := some col }, status c)
+  | ["frame"] =>
+    let c := s.c
+    (s, s!"{hex64 (fnvArray c.border.buf)} {specCheck c.machine s.last c.border.buf} " ++
+        s!"{toHex 1 c.borderColor.toNat} {col1 s.reported}")
+  | ["adj", rl] =>
+    match runs? rl with
+    | some buf => (s, specCheck s.c.machine s.last buf)
+    | none => (s, "bad-op")
+  | ["bpx", q] => (s, hex8 (s.c.border.buf.getD (hexNatD q) 0xEE))
+  | ["beam", t] =>
+    let (l, p, e) := nextBorderPixel s.c.machine (hexNatD t)
+    let sp := match Spec.beamPos s.c.machine (hexNatD t) with
+      | some q => toHex 5 q
+      | none => "-"
+    (s, s!"{toHex 2 l} {toHex 3 p} {bit e} {sp}")
+  | _ => (s, "bad-op")
+
+def proto : Driver.Proto := { σ := St, init := {}, handle := handle }
 
 end Driver.C09
